@@ -163,7 +163,7 @@ def run(tier, seed):
         a, b = gen_fb.gen_field(F, rng, tier, budget=1.0 if fid == 19 else 0.5)
         fld += a
         tails += b
-    part("std256-field", "std256", fld + tails, name="fbx", extra=X)
+    part("std256-field", "std256", fld + tails, name="fbx", extra=X, nofork=True)
     grp, gt, mul = [], [], []
     for cv in ebs:
         a, b = gen_fb.group_cases(cv, rng, quick)
